@@ -282,8 +282,8 @@ def run_real(case):
             for c in cancel_points(f):
                 if c == "pre" or c == 0:
                     continue
-                ce = Event.once(Instant(c * TICK), "cancel", (lambda h: (lambda e: h.cancel()))(handles[fid]), daemon=True)
-                cmap[id(ce)] = fid
+                ce = Event.once(Instant(c * TICK), "cancel", (lambda h: (lambda e: h.cancel()))(handles[fid]), daemon=True,
+                                context={"metadata": {"hv_cancel": fid}})
                 evs.append(ce)
         for i, m in enumerate(case.get("manual", [])):
             mnet = nets[m.get("net", 0)] if m["op"] != "heal" else None
@@ -301,8 +301,8 @@ def run_real(case):
                 def fn(e, mnet=mnet):
                     mnet.heal_partition()
                 tag = ("A", m.get("net", 0))
-            me = Event.once(Instant(m["t"] * TICK), "manual", fn, daemon=True)
-            mmap[id(me)] = (tag, i)
+            me = Event.once(Instant(m["t"] * TICK), "manual", fn, daemon=True, context={"metadata": {"hv_manual": i}})
+            mmap[i] = (tag, i)
             evs.append(me)
         return evs
 
@@ -316,10 +316,15 @@ def run_real(case):
     except (KeyError, ValueError):
         # a fault names an entity / link / network that is not part of the simulation
         return ["E unknown-target"]
-    fmap, seen = {}, set()
-    for fid, t in enumerate(tagged):
-        for idx, ev in enumerate(t.events):
-            fmap[id(ev)] = (fid, "a" if idx == 0 else "d")
+    seen = set()
+
+    def handed_out(ev):
+        """the fault and role of an event that `generate_events` returned (in the latest start())"""
+        for fid, t in enumerate(tagged):
+            for idx, e in enumerate(t.events):
+                if e is ev:
+                    return fid, "a" if idx == 0 else "d"
+        return None
     if evs is None:
         evs = make_events()
     for fid, f in enumerate(case["faults"]):
@@ -375,19 +380,18 @@ def run_real(case):
         t = ev.time.nanoseconds
         toks = " ".join(cur) if cur else "-"
         del cur[:]
-        key = id(ev)
-        # (fault events created during the run are not kept alive by the harness: never remember their id)
+        md_ = ev.context.get("metadata", {}) if ev.context else {}
         fa_ = None
         if ev.event_type.startswith("fault."):
-            fa_ = fmap.get(key) or attribute(ev)       # (the events in `fmap` are alive for the whole run)
+            fa_ = handed_out(ev) or attribute(ev)
         if fa_ is not None:
             fid, ad = fa_
             seen.add((fid, ad))
             out.append(f"F {t} {fid} {ad} | {settings(ev.time)}")
-        elif key in cmap:
-            out.append(f"C {t} {cmap[key]} | {settings(ev.time)}")
-        elif key in mmap:
-            (ad, fid), i = mmap[key]
+        elif ev.event_type == "cancel" and "hv_cancel" in md_:
+            out.append(f"C {t} {md_['hv_cancel']} | {settings(ev.time)}")
+        elif ev.event_type == "manual" and "hv_manual" in md_:
+            (ad, fid), i = mmap[md_["hv_manual"]]
             m = case["manual"][i]
             if ad == "A":
                 out.append(f"A {t} {fid} | {settings(ev.time)}")
@@ -442,8 +446,34 @@ def run_real(case):
             out.append(f"U {t} {ev.event_type}")
 
     sim.control.on_event(on_event)
+    rr = case.get("rerun")
+    if not rr:
+        sim.run()
+        out.append(f"Z | {settings(Instant(H * TICK))} | pending 0")
+        return out
+    # run (to the end, or stopped by a breakpoint - possibly inside fault windows), reset, run again:
+    # the transcript is that of the second run; the last line says whether it repeats the first
+    from happysimulator.core.control.breakpoints import TimeBreakpoint
+
+    if rr.get("stop") is not None:
+        sim.control.add_breakpoint(TimeBreakpoint(Instant(rr["stop"] * TICK)))
     sim.run()
+    first = list(out)
+    sim.control.clear_breakpoints()
+    sim.control.reset()
+    del out[:], cur[:]                    # harness bookkeeping only; the entities keep whatever state they have
+    seen.clear()
+    mh.clear()
+    count[0] = 0
+    sim.run()
+    second = list(out)
     out.append(f"Z | {settings(Instant(H * TICK))} | pending 0")
+    cmp_to = second if rr.get("stop") is None else second[:len(first)]
+    if first == cmp_to:
+        out.append("Y same")
+    else:
+        k = next((i for i, (x, y) in enumerate(zip(first, cmp_to)) if x != y), min(len(first), len(cmp_to)))
+        out.append(f"Y differs-at {k}")
     return out
 
 
@@ -456,6 +486,8 @@ def case_lines(case):
     n = case["n"]
     K = case.get("nets", 1)
     L = [f"n {n}", f"nets {K}", f"cap {case['cap']}"]
+    if case.get("rerun"):
+        L.append("rerun 1")
     for k, (lat, loss) in enumerate(net_matrices(case)):
         for a in range(n):
             for b in range(n):
@@ -532,7 +564,10 @@ class C06(core.Property):
             "when the fault hits; what it waits for arrives before / at the edges of / inside / after the window) / multinet "
             "(2-3 Network entities over the same workers, registered in a shuffled order; partition, latency and loss faults "
             "with network_name naming each of them or None; direct partition()/heal()/heal_partition() calls on each; probes "
-            "through every network; settings of every network's links judged) in rotation, plus ghost (a fault naming an "
+            "through every network; settings of every network's links judged) / rerun (a plan of any other family with a "
+            "stateless workload - handlers that only sleep and emit -: first run to the end or stopped by a breakpoint before / "
+            "inside / after the windows, sim.control.reset(), second run; the second run's transcript is judged and must repeat "
+            "the first) in rotation, plus ghost (a fault naming an "
             "entity, link or network that is not part of the simulation: construction must be rejected); in 35% of all cases "
             "the workload's events are created before the Simulation is built (early), so that deliveries due exactly at a "
             "window's start / end instant are older than the fault events; non-trivial = some job, probe, delivery, cancel or manual call was processed while a window was open; "
@@ -561,6 +596,9 @@ class C06(core.Property):
         "other event, whichever event object was created first (judged on every transcript: boundaryCheck)",
         "network_name=None resolves to the first Network registered with the Simulation (the harness computes that index; the "
         "Lean case carries the resolved network of every fault); a worker as an endpoint on network k is node worker + 1000*k",
+        "rerun family: the model starts the second run from its initial state (reset re-arms the fault schedule, closes the windows "
+        "a stopped run left open, clears fault-set crash flags, undoes cancel() calls made by the model during the run and keeps those "
+        "made before it); the first/second comparison is made by the harness on the transcript lines (`Y same`)",
         "a fault event that generate_events did not hand out (created later by the fault itself) is attributed to the "
         "lowest-numbered fault of that kind and target whose start / end is due at that time",
     ]
@@ -617,7 +655,7 @@ class C06(core.Property):
         r = s + rng.choice([0, 1, 8, 16, 40, 80])
         return "fresh", s, r
 
-    FAMS = ["gate", "net", "cap", "mixed", "cancel", "manual", "stack", "inflight", "multinet"]
+    FAMS = ["gate", "net", "cap", "mixed", "cancel", "manual", "stack", "inflight", "multinet", "rerun"]
 
     def generate(self, rng: random.Random, i: int, tier: str) -> dict:
         fam = self.FAMS[i % len(self.FAMS)]
@@ -635,13 +673,16 @@ class C06(core.Property):
             return self.gen_inflight(rng)
         if fam == "multinet":
             return self.gen_multinet(rng)
+        if fam == "rerun":
+            return self.gen_rerun(rng)
         return self.gen_base(rng, fam)
 
     # workload sizes per family: (jobs, probes)
     LOAD = {"gate": ([1, 2, 3, 4], [0, 1, 2]), "net": ([0, 1], [3, 5, 8]), "cap": ([2, 3, 4], [0]),
             "mixed": ([1, 2, 3], [1, 3, 5]), "cancel": ([1, 2, 3], [1, 3, 5]), "manual": ([0, 1], [4, 6, 9]),
             "stack": ([1, 2, 3], [2, 4, 6]), "ghost": ([0, 1], [0, 1]), "inflight": ([0, 1], [0, 1, 2]),
-            "multinet": ([0, 1], [4, 6, 9])}
+            "multinet": ([0, 1], [4, 6, 9]),
+            "rerun": ([1, 2], [2, 4])}
 
     def topology(self, rng, n):
         cap = rng.choice([4, 8, 16])
@@ -1071,6 +1112,27 @@ class C06(core.Property):
         case.update(nets=K, xlat=xlat, xloss=xloss, netorder=order)
         return case
 
+    def gen_rerun(self, rng):
+        """run, `sim.control.reset()`, run again under a fault plan of any other family: the first run
+        goes to the end or is stopped by a breakpoint (before, inside, after the windows).  The
+        workload is stateless (handlers that only sleep and emit; no futures, grants or direct
+        partition calls), so the second run has to repeat the first - fault windows included"""
+        base = rng.choice(["gate", "net", "mixed", "cap", "cancel", "stack", "multinet", "inflight"])
+        case = {"cancel": self.gen_cancel, "stack": self.gen_stack, "multinet": self.gen_multinet,
+                "inflight": self.gen_inflight}.get(base, lambda r: self.gen_base(r, base))(rng)
+        case["family"] = "rerun"
+        case.pop("manual", None)
+        case["nfut"] = 0
+        for job in case["jobs"]:
+            job["ops"] = [op if op[0] in ("sleep", "emit") else rng.choice([["sleep", 1], ["sleep", 8], ["emit", 0], ["emit", 8]])
+                          for op in job["ops"]]
+        times = [t for f in case["faults"] for t in (f["s"], f["r"]) if t is not None] or [16]
+        inside = [(f["s"] + f["r"]) // 2 for f in case["faults"] if f["r"] is not None]
+        stop = rng.choice([None, None] + [max(1, rng.choice(times + inside) + rng.choice([-1, 0, 1, 4]))] * 3)
+        case["rerun"] = {"stop": stop}
+        case["H"] = self.horizon(case)
+        return case
+
     def gen_ghost(self, rng):
         """a plan in which one fault names an entity / link that is not part of the simulation"""
         case = self.gen_base(rng, rng.choice(["gate", "net", "mixed"]))
@@ -1155,6 +1217,8 @@ class C06(core.Property):
                 yield with_(manual=keep)
         if case.get("early"):
             yield with_(early=False)
+        if case.get("rerun") and case["rerun"].get("stop") is not None:
+            yield with_(rerun={"stop": None})
         if not man and "manual" in case:
             c = {k: v for k, v in case.items() if k != "manual"}
             yield c
